@@ -254,6 +254,8 @@ func H_C16_roundtrip() {
 		depth = 3
 		noQuantC16 = true
 		layoutReset(0, 0)
+	} else if vTier() == 0 {
+		layoutReset(8, 2)
 	} else {
 		layoutReset(14, 4)
 	}
